@@ -41,6 +41,15 @@ func c06Perm(u *user.User, filePath, permissionType string) bool { return true }
 // files of nlines lines behind a cat limiter of the given capacity: the final
 // result must count every line of every file exactly once, and the run ends.
 var c06Pace time.Duration
+var c06ByLine bool
+
+// VerifC06LineKeySession: the same run grouped by $line: the group keys contain
+// the protocol's field delimiter '|' (they are whole log lines), as they do for
+// "group by $line" over any of dtail's own log files.
+func VerifC06LineKeySession(nfiles, nlines, cats int) {
+	c06ByLine = true
+	VerifC06Session(nfiles, nlines, cats)
+}
 
 // VerifC06SlowSession: the same run with files that are read slowly (700 ms per
 // line), so that the server side aggregation spans several of its 1 s
@@ -53,6 +62,8 @@ func VerifC06SlowSession(nfiles, nlines, cats int) {
 func VerifC06Session(nfiles, nlines, cats int) {
 	pace := c06Pace
 	c06Pace = 0
+	byLine := c06ByLine
+	c06ByLine = false
 	lg := dlog.VerifInstall(source.Client)
 	_ = lg
 	config.Server.MaxConcurrentCats = cats
@@ -77,6 +88,9 @@ func VerifC06Session(nfiles, nlines, cats int) {
 	}
 	var args config.Args
 	args.QueryStr = "select count(x),g group by g interval 1 logformat generickv"
+	if byLine {
+		args.QueryStr = "select count(x),g group by $line interval 1 logformat generickv"
+	}
 	args.What = strings.Join(files, ",")
 	args.Serverless = true
 	args.UserName = "u"
@@ -114,12 +128,19 @@ func VerifC06Session(nfiles, nlines, cats int) {
 		// registered although reads are still queued behind the limiter; (b) a per-server
 		// result that could not be merged at once is never merged before the final report
 		verifrt.Assert(total <= want, "lines are counted more than once in the final result")
+		// (with a single file neither known finding applies: there is no other file that could
+		// still be unregistered and no other server whose merge could be in flight)
+		verifrt.Assert(nfiles > 1, "lines of the only file of the run are missing from the final result")
 		verifrt.Finding("C06-KF1", total < want)
 		verifrt.Reach("lines-missing")
 		return
 	}
 	for f := 0; f < nfiles; f++ {
-		verifrt.Assert(perFile["k"+string(rune('0'+f))] == nlines, "a file's lines are not all in the final result")
+		key := "k" + string(rune('0'+f))
+		if byLine {
+			key = "g=k" + string(rune('0'+f)) + "|x=1"
+		}
+		verifrt.Assert(perFile[key] == nlines, "a file's lines are not all in the final result")
 	}
 	verifrt.Reach("all-counted")
 }
